@@ -68,9 +68,10 @@ ConnIn(c, offer, tamper) == [op |-> "conn", cl |-> c, offer |-> offer, tamper |-
 EpochIn(x) == [op |-> "epoch", sv |-> x]
 
 \* all tamper kinds act alike in the model (Eff # "none"): the quick exhaustive check uses two
-\* representatives per session kind, the thorough one (and the "tamper" generator preset) all of them
-McTampers(k) == IF Thorough THEN TampersFor(k)
-                ELSE TampersFor(k) \cap {"flip-ms0", "foreign", "flip-id0", "cache-evict"}
+\* representatives per session kind, the thorough one four / three; the "tamper" generator preset all of them
+McTampers(k) == TampersFor(k) \cap (IF Thorough
+                                     THEN {"flip-ms0", "flip-mac0", "trunc-1", "foreign", "flip-id0", "cache-trunc", "cache-evict"}
+                                     ELSE {"flip-ms0", "foreign", "flip-id0", "cache-evict"})
 OfferChoices == {<<"none", "none">>} \cup
                    (IF saved.kind = "none" THEN {}
                     ELSE {<<"saved", t>> : t \in {"none"} \cup McTampers(saved.kind)})
